@@ -21,6 +21,8 @@ type c18Proc struct {
 	msgStart   bool // waiting process: message start event
 	executable bool
 	parMult    bool // the catch event is parallel-multiple with two message definitions (both delivered by the wake-up)
+	taskAfter  bool // a task A<i> behind the throw event
+	broken     bool // the process cannot be instantiated: its task names an incoming sequence flow that does not exist
 }
 
 func c18Build(ps []c18Proc, flows [][2]string) string {
@@ -35,13 +37,20 @@ func c18Build(ps []c18Proc, flows [][2]string) string {
 		prev := fmt.Sprintf("s%d", i)
 		link := func(id string) { p.Flow(prev, id, ""); prev = id }
 		if c.task {
-			p.Node("task", fmt.Sprintf("T%d", i))
+			tn := p.Node("task", fmt.Sprintf("T%d", i))
+			if c.broken {
+				tn.Inner = `<bpmn:incoming>no_such_flow</bpmn:incoming>`
+			}
 			link(fmt.Sprintf("T%d", i))
 		}
 		if c.throws {
 			h := p.Node("throw", fmt.Sprintf("H%d", i))
 			h.Inner = fmt.Sprintf(`<bpmn:messageEventDefinition id="hd%d"/>`, i)
 			link(fmt.Sprintf("H%d", i))
+		}
+		if c.taskAfter {
+			p.Node("task", fmt.Sprintf("A%d", i))
+			link(fmt.Sprintf("A%d", i))
 		}
 		if c.catches {
 			cc := p.Node("catch", fmt.Sprintf("C%d", i))
@@ -206,6 +215,11 @@ func runC18(env *Env) {
 		{"two throws at one catch event", []c18Proc{{executable: true, task: true, throws: true}, {executable: true, task: true, throws: true}, {executable: true, catches: true}},
 			[][2]string{{"H0", "C2"}, {"H1", "C2"}}, []string{"w", "t:T0", "w", "t:T1", "w", "t:B2", "W", "W"}, []string{"T0", "T1", "B2"},
 			func(d map[string]bool) bool { return !d["T0"] || !d["T1"] || !d["B2"] }, 3},
+		// the waiting process a throw points at cannot be instantiated (invalid model): the set goes on, and is complete
+		// when the thrower is — not before
+		{"throw at a waiting process that cannot be instantiated", []c18Proc{{executable: true, throws: true, taskAfter: true}, {msgStart: true, task: true, broken: true}},
+			[][2]string{{"H0", "s1"}}, []string{"w", "t:A0", "W", "W"}, []string{"A0"},
+			func(d map[string]bool) bool { return !d["A0"] }, 1},
 		// the woken catch event is parallel-multiple with two definitions: the wake-up delivers an event for each
 		{"throw wakes a parallel-multiple catch event", []c18Proc{{executable: true, task: true, throws: true}, {executable: true, catches: true, parMult: true}},
 			[][2]string{{"H0", "C1"}}, []string{"w", "t:T0", "w", "t:B1", "W", "W"}, []string{"T0", "B1"},
@@ -316,8 +330,8 @@ func c18Case(ps []c18Proc, flows [][2]string, log []Ev) string {
 	instantiating := map[string]bool{}
 	for _, f := range flows {
 		var t int
-		if _, err := fmt.Sscanf(f[1], "s%d", &t); err == nil && strings.HasPrefix(f[1], "s") {
-			instantiating[f[0]] = true
+		if _, err := fmt.Sscanf(f[1], "s%d", &t); err == nil && strings.HasPrefix(f[1], "s") && !(t < len(ps) && ps[t].broken) {
+			instantiating[f[0]] = true // (a target that cannot be instantiated: the throw is acted on by nobody)
 		}
 	}
 	type ob struct{ k, i int }
